@@ -26,7 +26,7 @@ REGIMES = {
                         {"dimension": (0.4, 1.0, 0.6, 0, 360)}, {"dimension": (0.0, 1.0, 1.0, -180, 180)},
                         {"dimension": (0.2, 0.5, 1.0, -270, -100)}],
     "Sphere": [{"diameter": 1.1}],
-    "Tetrahedron": [{"vertices": TV}],
+    "Tetrahedron": [{"vertices": TV}, {"vertices": [TV[0], TV[2], TV[1], TV[3]]}],   # both chiralities
     "TriangularMesh": [{"vertices": TV, "faces": [(0, 2, 1), (0, 1, 3), (0, 3, 2), (1, 2, 3)]}, {"vertices": CUBE_V, "faces": CUBE_F}],
     "Triangle": [{"vertices": TV[:3]}],
     "Circle": [{"diameter": 1.3}],
@@ -87,6 +87,35 @@ def run_case(c):
             return {"rows": len(local), "problems": [("raised", f"get{f} raised {type(e).__name__}: {e}"[:160], None)]}
     B, H, J, M = out["B"], out["H"], out["J"], out["M"]
     problems = []
+    # the special rows again WITHOUT the ordinary ones (a call in which every row takes a special-case branch), and singly
+    special = np.where(cl == 0)[0]
+    if len(special) and in_out == "auto":
+        try:
+            sub = {f: np.asarray(getattr(src, "get" + f)(obs[special], **kw)).reshape(-1, 3) for f in "BHJM"}
+            pick = special[np.unique(np.linspace(0, len(special) - 1, 60).astype(int))]   # spread over faces, edges, corners, rims
+            one = {f: np.array([np.asarray(getattr(src, "get" + f)(obs[i], **kw)).reshape(3) for i in pick]) for f in "BHJM"}
+        except Exception as e:
+            return {"rows": len(local), "problems": [("raised", f"special rows alone raised {type(e).__name__}: {e}"[:160], None)]}
+        for tag, d, idx in (("special-rows-alone", sub, special), ("single-special-row", one, pick)):
+            r_ = np.linalg.norm(d["B"] - mu0 * d["H"] - d["J"], axis=1)
+            s_ = np.maximum.reduce([np.linalg.norm(d["B"], axis=1), mu0 * np.linalg.norm(d["H"], axis=1), np.linalg.norm(d["J"], axis=1)])
+            f_ = np.isfinite(d["B"]).all(1) & np.isfinite(d["H"]).all(1) & np.isfinite(d["J"]).all(1)
+            b_ = f_ & (r_ > REL * np.maximum(s_, 1e-300))
+            for k in np.where(b_)[0][:2]:
+                problems.append((f"B-mu0H-J|on-surface|{tag}", f"|B-mu0H-J|={r_[k]:.3g} scale={s_[k]:.3g} B={d['B'][k].tolist()} muH={(mu0 * d['H'][k]).tolist()} J={d['J'][k].tolist()}",
+                                 local[idx[k]].tolist()))
+            # and the values must not depend on the company of the call (identity pose only: with a rotation the observer
+            # coordinates are rounded differently in calls of different size, which may legitimately flip an on-surface decision)
+            for f in ("BHJ" if c["pose"] == 0 else ""):
+                full = out[f][idx]
+                ok_ = np.isfinite(full).all(1) & np.isfinite(d[f]).all(1)
+                dev = np.linalg.norm(full - d[f], axis=1)
+                sc_ = np.maximum(np.linalg.norm(full, axis=1), 1e-300)
+                w = ok_ & (dev > 1e-9 * sc_) & (dev > 1e-300)
+                if w.any():
+                    k = int(np.argmax(w))
+                    problems.append((f"{f}-depends-on-other-rows|{tag}", f"{d[f][k].tolist()} vs {full[k].tolist()} in the full call", local[idx[k]].tolist()))
+                    break
     fin = np.isfinite(B).all(1) & np.isfinite(H).all(1) & np.isfinite(J).all(1) & np.isfinite(M).all(1)
     # 1. B = mu0 H + J
     res = np.linalg.norm(B - mu0 * H - J, axis=1)
